@@ -33,6 +33,11 @@ func (a *Addr) enc() string {
 	return string(a.Role) + hex.EncodeToString([]byte(a.TCP.String()))
 }
 
+// encHost is the address without the port (what net.AddrError carries for "missing port in address").
+func (a *Addr) encHost() string {
+	return string(a.Role) + hex.EncodeToString([]byte(a.TCP.IP.String()))
+}
+
 func (a *Addr) net() net.Addr {
 	if a == nil {
 		return nil // a nil interface, as package net leaves Source for SetDeadline errors
@@ -52,9 +57,10 @@ func (e *NetErr) Temporary() bool { return false }
 
 // Node is one link of an error chain.
 type Node struct {
-	Kind  string // E S O W eof nc oc dl X N
+	Kind  string // E S O W eof nc oc dl X N XA NA
 	N     int
-	Txt   string // S: call, W/X/N: text, O: op
+	Txt   string // S: call, W/X/N: text, O: op, XA: text before the address, NA: AddrError.Err
+	Post  string // XA: text after the address
 	Net   string
 	Src   *Addr
 	Dst   *Addr
@@ -81,6 +87,11 @@ func (n *Node) Enc() string {
 			parts = append(parts, "X:"+hx(c.Txt))
 		case "N":
 			parts = append(parts, "N:"+hx(c.Txt)+":"+vlib.B(c.To))
+		case "XA":
+			parts = append(parts, "XA:"+hx(c.Txt)+":"+c.Dst.enc()+":"+hx(c.Post))
+		case "NA":
+			// (*net.AddrError).Error() = "address " + Addr + ": " + Err
+			parts = append(parts, "NA:"+hx("address ")+":"+c.Dst.encHost()+":"+hx(": "+c.Txt)+":0")
 		default:
 			parts = append(parts, c.Kind)
 		}
@@ -111,6 +122,11 @@ func (n *Node) Go() error {
 		return errors.New(n.Txt)
 	case "N":
 		return &NetErr{n.Txt, n.To}
+	case "XA":
+		// an operation error flattened into text, the way fmt.Errorf("…: %v", opErr) does it
+		return fmt.Errorf("%s%v%s", n.Txt, n.Dst.TCP, n.Post)
+	case "NA":
+		return &net.AddrError{Err: n.Txt, Addr: n.Dst.TCP.IP.String()}
 	}
 	panic("vc17: bad node kind " + n.Kind)
 }
@@ -123,6 +139,27 @@ func (n *Node) HasAddr(role byte) bool {
 		}
 	}
 	return false
+}
+
+// OpaqueAddr reports whether the chain names an address in an opaque part (a flattened operation error,
+// a *net.AddrError): text that no sanitiser working on error values can look into.
+func (n *Node) OpaqueAddr() bool {
+	for c := n; c != nil; c = c.Inner {
+		if c.Kind == "XA" || c.Kind == "NA" {
+			return true
+		}
+	}
+	return false
+}
+
+// Opaque are the two shapes of opaque errors that name the given endpoint.
+func Opaque(a *Addr) []*Node {
+	return []*Node{
+		{Kind: "XA", Txt: "error setting deadline: set udp ", Dst: a, Post: ": invalid argument"},
+		{Kind: "NA", Txt: "missing port in address", Dst: a},
+		{Kind: "W", Txt: "transport", Inner: &Node{Kind: "XA", Txt: "read tcp 10.9.8.7:41245->", Dst: a, Post: ": read: network is down"}},
+		{Kind: "S", Txt: "connect", Inner: &Node{Kind: "NA", Txt: "unexpected address type", Dst: a}},
+	}
 }
 
 // IsFlags evaluates errors.Is for the eight targets of generalizeErr and the net.Error timeout test.
@@ -174,6 +211,14 @@ func Rand(r *vlib.Rand, addrs []*Addr) *Node {
 			return nil
 		}
 		return addrs[r.Intn(len(addrs))]
+	}
+	if r.Chance(1, 25) { // an opaque leaf that names an endpoint
+		a := addrs[r.Intn(len(addrs))]
+		if r.Bool() {
+			n = &Node{Kind: "XA", Txt: wraps[r.Intn(len(wraps))] + ": " + ops[r.Intn(len(ops))] + " tcp ", Dst: a, Post: ": " + leafTexts[r.Intn(len(leafTexts))]}
+		} else {
+			n = &Node{Kind: "NA", Txt: leafTexts[r.Intn(len(leafTexts))], Dst: a}
+		}
 	}
 	for d := r.Intn(5); d > 0; d-- {
 		switch r.Intn(5) {
@@ -290,11 +335,47 @@ func mkClient(name, ip string, port int) Client {
 	return Client{name, &Addr{'c', &net.TCPAddr{IP: p, Port: port}}, Needles(net.ParseIP(ip))}
 }
 
-// Clients: an IPv4, an IPv6 and a v4-mapped IPv6 client (16-byte form of an IPv4 address).
+// Clients: an IPv4, an IPv6 and a v4-mapped IPv6 client (16-byte form of an IPv4 address), and a link-local
+// IPv6 client whose address prints with a zone ("[fe80::77:4d%eth0]:5555").
 func Clients() []Client {
 	mapped := mkClient("v4-mapped", "198.51.100.201", 40001)
 	mapped.Addr.TCP.IP = net.ParseIP("198.51.100.201").To16()
-	return []Client{mkClient("v4", "203.0.113.77", 5555), mkClient("v6", "2001:db8:77::4d", 5555), mapped}
+	zone := mkClient("v6-zone", "fe80::77:4d", 5555)
+	zone.Addr.TCP.Zone = "eth0"
+	return []Client{mkClient("v4", "203.0.113.77", 5555), mkClient("v6", "2001:db8:77::4d", 5555), mapped, zone}
+}
+
+// IPv4OnlyMMDB is a minimal MaxMind database of the given type ("GeoLite2-Country", "GeoLite2-ASN") whose
+// metadata says ip_version 4 and whose search tree holds no record: looking up an IPv4 address finds
+// nothing, looking up an IPv6 address fails with the reader's "error looking up '<ip>': you attempted to
+// look up an IPv6 address in an IPv4-only database".
+func IPv4OnlyMMDB(dbType string) []byte {
+	var b []byte
+	b = append(b, 0, 0, 1, 0, 0, 1)       // one node of two 24-bit records, both = node_count: no data
+	b = append(b, make([]byte, 16)...)    // data section separator; the data section is empty
+	b = append(b, "\xab\xcd\xefMaxMind.com"...)
+	str := func(s string) { b = append(b, byte(2<<5|len(s))); b = append(b, s...) }
+	u16 := func(v int) { b = append(b, 5<<5|2, byte(v>>8), byte(v)) }
+	b = append(b, 7<<5|9) // map of 9 entries
+	str("binary_format_major_version")
+	u16(2)
+	str("binary_format_minor_version")
+	u16(0)
+	str("build_epoch")
+	b = append(b, 4, 2, 0x65, 0, 0, 0) // uint64 (extended type 9) in 4 bytes
+	str("database_type")
+	str(dbType)
+	str("description")
+	b = append(b, 7<<5|0)
+	str("ip_version")
+	u16(4)
+	str("languages")
+	b = append(b, 0, 4) // empty array (extended type 11)
+	str("node_count")
+	b = append(b, 6<<5|1, 1)
+	str("record_size")
+	u16(24)
+	return b
 }
 
 func Station() *Addr { return &Addr{'s', &net.TCPAddr{IP: net.ParseIP("10.9.8.7").To4(), Port: 41245}} }
